@@ -1244,6 +1244,26 @@ def run_impl(case):
                     s1, s2 = state_json(g), state_json(g2[1])
                     if s1 != s2 or bits(g.array) != bits(g2[1].array):
                         fail("second round trip changes the field again")
+                # what a read returns belongs to the caller: after the first result has been moved, relabelled and
+                # emptied IN PLACE, reading the untouched file once more gives the stored state again
+                s0 = state_json(g)
+                try:
+                    g.mesh.translate(tuple(float(x) for x in g.mesh.region.edges), inplace=True)
+                    g.mesh.scale(2.0, inplace=True)
+                    g.mesh.bc = ""
+                    g.mesh.subregions = {}
+                    g.array[...] = 0
+                    g.valid[...] = False
+                    moved = True
+                except Exception:
+                    moved = False
+                if moved:
+                    g3 = _try(lambda: df.Field.from_file(path))
+                    if g3[0] != "ok":
+                        fail(f"reading the same file a second time is rejected: {g3[1]}")
+                    elif state_json(g3[1]) != s0:
+                        fail("reading the same file a second time, after the first result was changed in place, does not return the "
+                             "stored state (results of reads share objects)")
             obs["nontrivial"] = int(np.prod(f.mesh.n)) >= 2 and len({bits(x) for x in f.array.reshape(-1, f.nvdim)}) > 1
             return obs
 
